@@ -144,9 +144,14 @@ class Config:
                 return s.replace(local_config_dir, replace_config_dir)
             return s
 
+        def escape(s):
+            # Values are returned interpolated. Escape literal dollar signs so that reading the
+            # dict back does not try to interpolate them again.
+            return s.replace("$", "$$") if isinstance(s, str) else s
+
         def convert_to_dict(path, obj):
             if isinstance(obj, SectionProxy):
-                result[path] = {k: substitute_config_dir(v) for k, v in obj.items()}
+                result[path] = {k: escape(substitute_config_dir(v)) for k, v in obj.items()}
                 return
             for key in obj.keys():
                 convert_to_dict(f"{path}.{key}" if path else key, obj[key])
